@@ -50,11 +50,12 @@ def plan(tier, seed):
     # control skeleton of size <= 3 / 4 (alphabet includes the alias 'v = u' and the self-update 'u = u + x')
     n0 = len(items)
     quick = tier == "quick"
+    # thorough: size 4 over the alias alphabet with every renaming (140k programs; size 4 over the reduced alphabet with
+    # three prologues/returns was 589k - not a feasible tier)
     drv_r = sggen.df_driver(sggen.DFConfig(
-        size=3 if quick else 4, depth=1, alphabet="alias" if quick else "reduced", kinds=["if", "for"], ivar_after=False,
+        size=3 if quick else 4, depth=1, alphabet="alias", kinds=["if", "for"], ivar_after=False,
         renames=[r for r in sggen.RENAMES if not quick or r[0] in sggen.RENAMES_QUICK],
-        prologues=["vc", "none"] if quick else ["uc,vc", "vc", "none"],
-        returns=["u,v", "v"] if quick else ["u,v", "v", "x,u"]))
+        prologues=["vc", "none"], returns=["u,v", "v"]))
     for picks, case in explore.explore(drv_r, bound=0, stats=st):
         key = _json.dumps(case["prog"], sort_keys=True)
         if key not in seen_s:
@@ -70,7 +71,8 @@ def plan(tier, seed):
     n0 = len(items)
     opsets = (13, 21) if quick else (13, 14, 15, 16, 19, 21, 23)
     for it in list(items):
-        if (it.get("fam") in ("op-b1", "op-b2") and (not quick or it["spec"]["context"] == 0)) or \
+        if (it.get("fam") == "op-b1" and it["spec"]["context"] == 0) or \
+                (it.get("fam") == "op-b2" and it["spec"]["context"] == 0 and it["spec"]["chain"] == 0) or \
                 (not quick and it.get("fam") == "df-full-s2-periph1"):
             for n in opsets:
                 it2 = dict(it)
